@@ -1,5 +1,6 @@
 import PyCraft.Model.C02Exact
 import PyCraft.Lemmas.Wire
+set_option exponentiation.threshold 2200
 /-!
 Helper lemmas for `Props/C02Exact.lean`: `FixedPoint` (same `bits` on both sides) and the UUID
 text ↔ bytes mapping. Lower-case hex strings are handled as `ds.map hexDigit` for digit lists
@@ -10,16 +11,35 @@ open PyCraft
 
 /-! ## FixedPoint -/
 
-theorem fixed_send_eq (cc : CustomCodec) (base : IntT) (bits : Nat) (p q : Int) :
+theorem init_denominator (base : IntT) (bits : Nat) :
+    (((FixedPointT.init base bits).denominator : Nat) : Int) = (2 : Int) ^ bits := by
+  simp [FixedPointT.init]
+
+theorem fixed_send_eq (cc : CustomCodec) (base : IntT) (bits : Nat) (p q : Int)
+    (h : ¬ ((2 : Int) ^ 1024 * q ≤ p * 2 ^ bits ∨ (2 : Int) ^ 1024 * q ≤ -(p * 2 ^ bits))) :
     (FixedPointT.init base bits).send cc p q
       = encode cc (.fixed base bits) (.int (fixedWire bits p q)) := by
-  simp only [FixedPointT.send, FixedPointT.init, encode, fixedWire, Int.natCast_pow]
+  unfold FixedPointT.send
+  simp only [init_denominator]
+  rw [if_neg h]
   rfl
+
+theorem fixed_send_overflow (cc : CustomCodec) (base : IntT) (bits : Nat) (p q : Int)
+    (h : (2 : Int) ^ 1024 * q ≤ p * 2 ^ bits ∨ (2 : Int) ^ 1024 * q ≤ -(p * 2 ^ bits)) :
+    (FixedPointT.init base bits).send cc p q = .error .other := by
+  unfold FixedPointT.send
+  simp only [init_denominator]
+  rw [if_pos h]
+
+/-- every fixed-width code fits in 64 bits -/
+theorem IntT.inDom_bound (t : IntT) (v : Int) (h : t.inDom v) : -(2 : Int) ^ 64 ≤ v ∧ v ≤ 2 ^ 64 := by
+  cases t <;> simp [IntT.inDom, IntT.signed, IntT.width] at h <;> omega
 
 theorem fixed_read_eq (cc : CustomCodec) (base : IntT) (bits : Nat) (bs : Bytes) :
     (FixedPointT.init base bits).read cc bs
       = (do let (v, r) ← base.unpack bs; pure (fixedOfWire bits v, r)) := by
-  simp only [FixedPointT.read, FixedPointT.init, decode, fixedOfWire, Int.natCast_pow]
+  simp only [FixedPointT.read, init_denominator, decode, fixedOfWire]
+  show (do let __x ← (do let __x ← base.unpack bs; pure (Value.int __x.fst, __x.snd)); _) = _
   cases base.unpack bs <;> rfl
 
 /-! ## digits -/
@@ -310,6 +330,18 @@ theorem uuidParseChars_dashed (ds : List Nat) (h : AllDigits ds) (hl : ds.length
     simpa using this
   rw [if_pos hc]
   rfl
+
+theorem uuidParseChars_kinds (s : List Char) :
+    (∃ n, uuidParseChars s = .ok (beBytes 16 n)) ∨ uuidParseChars s = .error .value := by
+  unfold uuidParseChars
+  simp only
+  split
+  · exact .inr rfl
+  · split
+    · exact .inr rfl
+    · split
+      · exact .inl ⟨_, rfl⟩
+      · exact .inr rfl
 
 theorem uuidTextChars_eq (b : Bytes) :
     uuidTextChars b = dashed ((digitsOf 32 (beValue b)).map hexDigit) := by
